@@ -1,17 +1,18 @@
 #!/bin/bash
-# Re-run every kept seeded mutant against the quick checks recorded as catching it.
-# usage: tools/seedall.sh [pattern]   -> prints one line per seed: CAUGHT / MISSED
+# Re-run every kept seeded mutant against the quick check recorded as catching it, in a scratch
+# worktree of /repo (PTERA_SRC), so /repo itself is never modified.
+# usage: tools/seedall.sh [pattern]   -> one line per seed: CAUGHT / MISSED
 cd /verif
+WT=/tmp/seedwt_$$
+git -C /repo worktree add -q --detach $WT HEAD || exit 3
+trap "git -C /repo worktree remove --force $WT" EXIT
 for d in seeded/${1:-*}/; do
   id=$(basename $d)
   checks=$(/venv/bin/python -c "import json;print(' '.join(json.load(open('$d/meta.json'))['caught_by_quick_checks']))")
   first=$(echo $checks | cut -d' ' -f1)
-  cd /repo
-  if ! git diff --quiet; then echo "repo dirty"; exit 3; fi
-  if ! git apply $OLDPWD/$d/patch.diff 2>/dev/null && ! git apply --3way $OLDPWD/$d/patch.diff 2>/dev/null; then echo "$id PATCH-DOES-NOT-APPLY"; git checkout -- . ; cd /verif; continue; fi
-  cd /verif
-  out=$(timeout 1800 ./check $first --tier quick 2>&1); rc=$?
+  git -C $WT checkout -q -- .
+  if ! git -C $WT apply /verif/$d/patch.diff 2>/dev/null && ! git -C $WT apply --3way /verif/$d/patch.diff 2>/dev/null; then echo "$id PATCH-DOES-NOT-APPLY"; continue; fi
+  out=$(PTERA_SRC=$WT VERIF_JOBS=${SEED_JOBS:-8} timeout 1800 ./check $first --tier quick 2>&1); rc=$?
   n=$(echo "$out" | grep -c '^VIOLATION')
   if [ $rc -eq 1 ] && [ $n -gt 0 ]; then echo "$id CAUGHT by $first ($n violation lines)"; else echo "$id MISSED by $first rc=$rc"; fi
-  git -C /repo checkout -- .
 done
